@@ -246,6 +246,7 @@ def run(ctx):
     _wdt_optional_chunk_gate_rule(ctx, wdt)
     _wdl_loss_guard_rule(ctx, wdl)
     _wdl_capability_rule(ctx, wdl)
+    R_const = ctx.rule("C18.every-record-field-is-serialised", "for every linear read/write pair of wow-wdt / wow-wdl: each field of the record struct is read by its `write`", floor=30)
     R_pair = ctx.rule("C18.read-write-wire-agreement", "each WDT chunk / WDL record is written with the widths, order and named fields it is read with", floor=10)
     R_size = ctx.rule("C18.size-equals-bytes-written", "for fixed-size chunks size() equals the number of bytes write() emits", floor=2)
     R_ver = ctx.rule("C18.same-optional-chunk-rule", "reader and writer decide the optional MWMO chunk through the same version rule", floor=2)
@@ -386,6 +387,27 @@ def run(ctx):
         if n_r == 0:
             ctx.ok(R_pop, {"fn": fname, "reads_of_filled_collections": 0, "filled_fields": sorted("%s.%s" % k_ for k_ in writes)[:8]})
 
+    # the version a parsed file is given decides which chunks the next write emits (MWMO on terrain maps only before Cataclysm), so it
+    # must be derived from the chunks that are there before anything else: in detect_version no header-flag test comes ahead of the
+    # chunk-presence tests (MAID, MWMO) — a flag heuristic placed first can name a version whose writer drops a chunk the file has
+    R_det = ctx.rule("C18.version-detection-consults-chunk-presence-before-flags", "in WdtReader::detect_version every read of the MPHD flags comes, in evaluation order, after the reads of `maid` and `mwmo` presence", floor=1)
+    dv = next((f for f in wdt.fn_list if f.hir and f.kind != "Closure" and f.path.endswith("::detect_version")), None)
+    if dv is None:
+        ctx.bad(R_det, "detect_version|missing", "-", "function not found", "anchor gone")
+    else:
+        ctx.saw_fn(dv)
+        first = {}
+        for i_, n_ in enumerate(hirq.walk(dv.hir["body"])):
+            if n_.get("k") == "field" and n_["name"] in ("flags", "mwmo", "maid"):
+                first.setdefault(n_["name"], (i_, n_.get("ln")))
+        if not all(k_ in first for k_ in ("flags", "mwmo", "maid")):
+            ctx.bad(R_det, "detect_version|shape", dv.where, "reads of flags / mwmo / maid not all found (%s)" % sorted(first), "shape changed")
+        elif first["flags"][0] > first["mwmo"][0] and first["flags"][0] > first["maid"][0]:
+            ctx.ok(R_det, {"fn": "detect_version", "first_flag_read_line": first["flags"][1], "mwmo_read_line": first["mwmo"][1], "maid_read_line": first["maid"][1]})
+        else:
+            ctx.bad(R_det, "detect_version|flags-before-chunks", "%s:%d" % (dv.file, first["flags"][1] or 0), "the MPHD flags are consulted (line %s) before the presence of MWMO (line %s) has been looked at" % (first["flags"][1], first["mwmo"][1]),
+                    "a file whose flags match the heuristic is given a version for which the writer omits a chunk the file carries: a pre-Cataclysm terrain map with MWMO loses it on the second write")
+
     for crate in (wdt, wdl):
         by_owner = owners(crate)
         for owner, fs in sorted(by_owner.items()):
@@ -396,6 +418,21 @@ def run(ctx):
             if owner.endswith("WdlParser") or owner.endswith("WdtReader") or owner.endswith("WdtWriter"):
                 continue
             armed = wire.check_pair(ctx, R_pair, crate, r, w, owner, fields=struct_fields(crate, owner), allow_seek=False)
+            if armed:
+                # every field of the record takes part in its own serialisation: a slot filled with a constant instead of the field
+                # (`write_all(&[0u8; 2])` for `self.padding`) loses whatever the reader decoded into it
+                adt_ = next((a_ for a_ in crate.items["adts"] if a_["path"] == owner), None)
+                pn_ = [b_ for p_ in w.hir["params"] for b_ in hirq.pat_binds(p_)]
+                if adt_ is not None and pn_ and pn_[0] == "self" and adt_.get("fields"):
+                    used_ = {x_["name"] for x_ in hirq.walk(w.hir["body"]) if x_.get("k") == "field" and hirq.render(x_["e"]) in ("self", "(*self)", "*self")}
+                    whole_ = any(x_.get("k") == "path" and (x_.get("res") or {}).get("local") == "self" for x_ in hirq.walk(w.hir["body"]) if True) and not used_
+                    for fl_ in adt_["fields"]:
+                        nm_ = fl_["name"]
+                        if nm_ in used_ or whole_:
+                            ctx.ok(R_const, {"type": owner.split("::")[-1], "field": nm_}) if len(ctx.samples) < 380 else (ctx.rules[R_const].__setitem__("obligations", ctx.rules[R_const]["obligations"] + 1), ctx.rules[R_const].__setitem__("discharged", ctx.rules[R_const]["discharged"] + 1))
+                        else:
+                            ctx.bad(R_const, "%s|%s|not-written" % (owner.split("::")[-1], nm_), "%s:%d" % (w.file, w.lo), "`%s::write` never reads `self.%s` (the reader decodes that field; the bytes in its place are a constant)" % (owner.split("::")[-1], nm_),
+                                    "whatever the field held is replaced by the constant on every write: the record does not survive write -> parse (only a content comparison shows it — the second write is byte-identical)")
             sz = fs.get("size")
             if armed and sz is not None and sz.hir:
                 wt = wire.specialise(wire.extract(crate, w, "w")[0], {})
